@@ -111,6 +111,15 @@ def check(case):
     parts = "".join(p.dump() if hasattr(p, "dump") else p.convert_to_text() for p in f.iter_parts())
     if parts != exp:
         raise Violation("parts-differ", "concatenated parts %s" % short(parts))
+    # What an earlier call handed out belongs to the caller: edit the first result (a perturbation
+    # only - whether these edits behave is C05/C10's business), then parse the same input again.
+    for para in list(f):
+        try:
+            para["X-Scribble"] = "1"
+            for k in list(para.keys())[:1]:
+                del para[k]
+        except (KeyError, ValueError):
+            pass
     # a list (re-iterable) must behave as an iterator does
     f2 = parse_deb822_file(lines, accept_files_with_error_tokens=True,
                            accept_files_with_duplicated_fields=True)
